@@ -8,6 +8,9 @@
 from vp.wb import addr, coord, quote_sheet, range_cells
 
 S1, S2, SD = 'Sheet1', 'My Sheet', 'Data'
+# other names for the second sheet: characters that mean something to a regular expression, to python source text
+# or to the address syntax (never an apostrophe or an exclamation mark: the harness splits addresses at the last '!')
+S2_NAMES = (S2, S2, S2, 'P&L (EU)', 'Costs+1,2', 'a-b.c #3', '2024')
 
 NUMBERS = [0, 1, -1, 2, 3, 7, 10, 100, 0.5, -2.25, 3.0, 1e-7, 4096, -0.0, 12.75, -4]
 # (1e22 is deliberately absent: sums that cancel catastrophically depend on the order of addition,
@@ -318,7 +321,7 @@ def dag(rng, n_cells=None, two_sheets=None, arrays=None, data_sheet=None, forms=
     two_sheets = rng.random() < 0.4 if two_sheets is None else two_sheets
     data_sheet = rng.random() < 0.4 if data_sheet is None else data_sheet
     arrays = rng.random() < 0.35 if arrays is None else arrays
-    g.sheets = ([SD] if data_sheet else []) + [S1] + ([S2] if two_sheets else [])
+    g.sheets = ([SD] if data_sheet else []) + [S1] + ([rng.choice(S2_NAMES)] if two_sheets else [])
     n_cells = n_cells or rng.randint(4, 16)
 
     positions = set()
@@ -396,7 +399,7 @@ def add_array(rng, spec, meta):
     # on the first sheet, or (half of the time, when there is one) on the sheet with a blank in its name
     si = 0
     for k, (name, sheet_cells) in enumerate(spec['sheets']):
-        if name == S2 and len(sheet_cells) >= 2 and rng.random() < 0.5:
+        if name in S2_NAMES and len(sheet_cells) >= 2 and rng.random() < 0.5:
             si = k
     cells = dict(spec['sheets'][si][1])
     coords = sorted(cells, key=lambda c: (int(c.lstrip('ABCDE')), c[0]))
